@@ -175,3 +175,29 @@ func RunNodeSetVariable() {
 		c01.CompareResult(b, r, err, want, wantFail, m.src)
 	}
 }
+
+// langMenu: concrete language tags and arguments, among them letters whose
+// upper and lower case are not ASCII (the comparison ignores ASCII case only),
+// characters that Unicode folds onto ASCII letters (KELVIN SIGN, LONG S), and
+// sub-tag boundaries.
+var langMenu = []string{"en", "EN", "en-US", "en-us", "e", "en-", "enx", "é-FR", "É-fr", "É", "é", "K", "k", "ſ", "s", "S-x", "ſ-x", ""}
+
+// RunLangMenu: lang() over every pair (xml:lang value, argument) of the menu.
+func RunLangMenu() {
+	v := langMenu[nd.Choice(len(langMenu))]
+	l := langMenu[nd.Choice(len(langMenu))]
+	d := spec.NewDoc()
+	a := d.Add(0, spec.Node{Kind: spec.Elem, Local: "a"})
+	d.Add(a, spec.Node{Kind: spec.Attr, Local: "lang", Space: xmlNS, Value: v})
+	bb := d.Add(a, spec.Node{Kind: spec.Elem, Local: "b"})
+	ev := []hx.Event{{N: hx.Elem{Name: "a"}}, {N: hx.Attr{NS: xmlNS, Name: "lang", Val: v}}, {N: hx.Elem{Name: "b"}}, {End: true}, {End: true}}
+	b := &hx.Built{Doc: d, Events: ev}
+	b.Root, b.Err = hx.Build(ev)
+	b.Tie()
+	nd.Assert(b.TieOK, "store-mirrors-script")
+	r, err := xsel.Exec(b.Cursors[bb], langExpr, xsel.WithVariable("L", xsel.String(l)))
+	nd.Reach("lang-menu")
+	got, ok := r.(xsel.Bool)
+	nd.Assert(err == nil && ok, "lang-menu.is-bool")
+	nd.Assert(bool(got) == d.Lang(bb, l), "lang-menu.value")
+}
